@@ -3,6 +3,7 @@ package core
 import (
 	"regexp"
 	"unicode"
+	"unicode/utf8"
 
 	"github.com/reeflective/readline/inputrc"
 	"github.com/reeflective/readline/internal/color"
@@ -580,7 +581,7 @@ func HighlightMatchers(sel *Selection) {
 		case len(split) == 0:
 			return
 		case pos == 0 && len(split) > index:
-			adjust = len(split[index])
+			adjust = utf8.RuneCountInString(split[index])
 		default:
 			adjust = pos * -1
 		}
